@@ -27,7 +27,7 @@ Theorem C29_accept_iff_all_stages : forall E lcs T x v,
 Proof. exact accept_iff. Qed.
 Print Assumptions C29_accept_iff_all_stages.
 
-(* Rejections are user-level argument errors — provided element-type inference for untyped arrays never
+(* No rejection is an internal error — provided element-type inference for untyped arrays never
    fails ... *)
 Theorem C29_reject_user_error_partial : forall E lcs T x,
   (forall ts, lcs ts <> None) -> validate E lcs T x <> Reject RInternal.
@@ -42,6 +42,16 @@ Theorem C29_reject_user_error_refuted :
   validate E0 lcs0 (TPrim PAnyStruct) (XDict []) = Reject RImport.
 Proof. exact empty_array_internal. Qed.
 Print Assumptions C29_reject_user_error_refuted.
+
+(* Second finding: an array whose static element type is a fixed-size simple type and which wrongly
+   contains a container, nested in another container or a composite field, is rejected with atree's
+   CopyError (a storage-layer error, unclassified in the VM) instead of an invalid-argument error. *)
+Theorem C29_reject_argument_error_refuted :
+  validate E0 lcs0 (TVar (TVar (TPrim PWord16))) (XArray [XArray [XComp KStruct 0 [(0%nat, XNum PInt 1)]]]) = Reject RCopy /\
+  validate E0 lcs0 (TVar (TVar (TPrim PInt))) (XArray [XArray [XComp KStruct 0 [(0%nat, XNum PInt 1)]]]) = Reject RMalformed /\
+  validate E0 lcs0 (TVar (TPrim PWord16)) (XArray [XComp KStruct 0 [(0%nat, XNum PInt 1)]]) = Reject RMalformed.
+Proof. exact nested_simple_array_copy_error. Qed.
+Print Assumptions C29_reject_argument_error_refuted.
 
 (* numbers that do not fit their type never get past the decoder *)
 Theorem C29_out_of_range_rejected : forall E lcs T p n,
